@@ -624,6 +624,8 @@ def run(ctx):
     ex = timed('classes', stream_classes, ctx, mods, specs, pop)
     timed('qids', stream_qids, ctx, mods, pop)
     timed('id_cache', stream_id_cache, ctx, mods, pop, ex.instances)
+    timed('keys', stream_keys, ctx, mods)
+    timed('xproc_extras', xproc_extras, ctx, mods, pop, ex)
     timed('xproc', stream_xproc, ctx, mods, ex)
 
 
@@ -670,6 +672,12 @@ def replay(ctx, data):
     if k == 'qids':
         qs = pickle.loads(base64.b64decode(data['pickle_b64']))
         ok = True
+        try:
+            sorted(qs)
+            [(a < b, a > b, a <= b, a >= b) for a in qs for b in qs]
+        except Exception as e:      # noqa
+            print('qids', qs, 'comparison raises', type(e).__name__, e)
+            return False
         for a in qs:
             for b in qs:
                 lt, gt, eq = bool(a < b), bool(a > b), bool(a == b)
@@ -686,6 +694,13 @@ def replay(ctx, data):
         before = len(ctx.violations)
         stream_xproc(ctx, mods, ex)
         return len(ctx.violations) == before and not ctx.known_hits
+    if k == 'keypath':
+        x = key_entries(cirq)[data['entry']](tuple(data['path']), data['name'])
+        fails = key_value_failures(cirq, eval_namespace(mods), x)
+        print('value:', _short_repr(x), '\nkeys :', key_structure(cirq, x))
+        for how, d in fails:
+            print(f'  {how}: {d}'[:500])
+        return not fails
     if k == 'id_cache':
         specs = load_specs()
         pop = Population(mods, specs)
@@ -813,6 +828,12 @@ MUTATION_DENYLIST = {
 }
 
 
+# (class, field): a qid of ANOTHER class in this field gives an object that no public call produces
+CROSS_QID_DENYLIST = {
+    ('_QubitAsQid', 'qubit'): 'only produced by Qid.with_dimension of classes that do not override it; NamedQubit, LineQubit and GridQubit do',
+}
+
+
 class Mutator:
     def __init__(self, mods, pop, rng):
         self.mods, self.cirq, self.pop, self.rng = mods, mods['cirq'], pop, rng
@@ -839,6 +860,21 @@ class Mutator:
             pass
         return [o for o in self.pop.by_type.get(t, []) if o != q][:2]
 
+    def named_like(self, q, i=0):
+        cirq = self.cirq
+        return cirq.NamedQubit(f'vf_n{i}') if q.dimension == 2 else cirq.NamedQid(f'vf_n{i}', dimension=q.dimension)
+
+    def qid_cross(self, q):
+        """qids of other classes with the same dimension: one hashing through a string, one through integers"""
+        cirq = self.cirq
+        out = [self.named_like(q, 7)]
+        out.append(cirq.LineQubit(11) if q.dimension == 2 else cirq.LineQid(11, dimension=q.dimension))
+        return [a for a in out if type(a) is not type(q)]
+
+    @staticmethod
+    def admits_any_qid(ann):
+        return ann is not None and re.search(r'\bQid\b', ann) is not None
+
     def alts(self, v, depth=0, sym=False, ann=None):
         """typed alternatives for one field value (as a reader of the document sees it); symbols only where the
         constructor's annotation admits them (sym)"""
@@ -846,7 +882,7 @@ class Mutator:
         if isinstance(v, bool):
             return [not v]
         if isinstance(v, int):
-            out = [v + 1, v + 2] if v >= 0 else [v - 1]
+            out = [v + 1, v + 2] if v >= 0 else [v - 1, 0]
             if sym:
                 out.append(sympy.Symbol('vf_t'))
             return out
@@ -859,7 +895,9 @@ class Mutator:
         if isinstance(v, str):
             if v and isinstance(getattr(cirq, v, None), type):      # a class given by name
                 return [n for n in ('ZPowGate', 'CZPowGate', 'YPowGate') if n != v][:2]
-            return [v + 'x', 'vf_m']
+            # first a string that reads as a key two scopes deep (fields holding measurement keys store path and name joined
+            # by ':'); for every other string field it is just another string
+            return ['vf_p:vf_q:' + v, v + 'x', 'vf_m']
         if isinstance(v, sympy.Basic):
             out = [sympy.Symbol('vf_u')]
             for f in (lambda: v + 1, lambda: 2 * v, lambda: v.subs({s: sympy.Symbol(s.name + '_m') for s in v.free_symbols})):
@@ -869,7 +907,7 @@ class Mutator:
                     pass
             return out + [0.25]
         if isinstance(v, cirq.Qid):
-            return self.qid_alts(v)
+            return self.qid_alts(v) + (self.qid_cross(v) if self.admits_any_qid(ann) else [])
         if isinstance(v, (list, tuple)):
             mk = type(v) if type(v) in (list, tuple) else list
             out = []
@@ -880,7 +918,14 @@ class Mutator:
                     if a not in v:
                         out.append(mk([a] + list(v[1:])))
                         break
+                if self.admits_any_qid(ann):      # the same positions held by qubits that hash through a string
+                    out.append(mk([self.named_like(q, i) for i, q in enumerate(v)]))
                 return out
+            if not v and ann is not None and re.search(r'\bstr\b', ann):     # an empty sequence of strings (e.g. a key path)
+                return [mk(['vf_a']), mk(['vf_a', 'vf_b'])]
+            if v and all(isinstance(e, str) for e in v):
+                out.append(mk(list(v) + ['vf_s']))
+                out.append(mk(list(v) + ['vf_s', 'vf_t']))
             if depth < 3:
                 for idx in sorted({0, len(v) - 1}) if v else []:
                     for a in self.alts(v[idx], depth + 1)[:2]:
@@ -929,7 +974,7 @@ class Mutator:
     @staticmethod
     def annotations(cls):
         out = {}
-        for f in (getattr(cls, '__init__', None), getattr(cls, '_from_json_dict_', None)):
+        for f in (getattr(cls, '__init__', None), getattr(cls, '__new__', None), getattr(cls, '_from_json_dict_', None)):
             try:
                 for p in inspect.signature(f).parameters.values():
                     if p.annotation is not inspect.Parameter.empty:
@@ -954,6 +999,19 @@ class Mutator:
         if f is not None:
             return f(**dict({'cirq_type': self.cirq.json_cirq_type(cls)}, **d))
         return cls(**d)
+
+    def build_ctor(self, cls, d, extra):
+        """cls(**fields) when every JSON field is a named constructor parameter (else None)"""
+        try:
+            ps = inspect.signature(cls).parameters
+        except (TypeError, ValueError):
+            return None
+        if any(k not in ps or ps[k].kind in (ps[k].VAR_POSITIONAL, ps[k].VAR_KEYWORD, ps[k].POSITIONAL_ONLY) for k in dict(d, **extra)):
+            return None
+        base = cls(**d)      # the document's fields must BE the constructor's arguments (same names, same shapes)
+        if type(base) is not cls or not _safe_eq(base, self.build(cls, d)):
+            return None
+        return cls(**dict(d, **extra))
 
     def ctor_extras(self, cls, d):
         """constructor arguments that the JSON dict does not mention (omitted-when-default fields)"""
@@ -996,7 +1054,8 @@ class Mutator:
         for k in d:
             if (cls.__name__, k) in MUTATION_DENYLIST:
                 continue
-            for a in self.alts(d[k], depth, sym=self.admits_symbols(anns.get(k)), ann=anns.get(k)):
+            ann_k = None if (cls.__name__, k) in CROSS_QID_DENYLIST and self.admits_any_qid(anns.get(k)) else anns.get(k)
+            for a in self.alts(d[k], depth, sym=self.admits_symbols(anns.get(k)), ann=ann_k):
                 cands.append((k, a, False))
         for k, a in self.ctor_extras(cls, d):
             cands.append((k, a, True))
@@ -1022,7 +1081,10 @@ class Mutator:
                 with time_limit(5), warnings.catch_warnings():
                     warnings.simplefilter('ignore')
                     m = self.build(cls, d, {k: a})
-                    if type(m) is not cls or _safe_eq(m, x) or not _safe_eq(m, m):
+                    if type(m) is cls and _safe_eq(m, x) and not extra:
+                        # the reader did not look at the changed field: the same arguments through the constructor
+                        m = self.build_ctor(cls, d, {k: a})
+                    if m is None or type(m) is not cls or _safe_eq(m, x) or not _safe_eq(m, m):
                         continue
                     key = repr(m)
             except Exception:      # noqa   constructor rejected the mutated argument
@@ -1143,6 +1205,16 @@ class Explorer:
         if self._y is None:
             return None
         import numpy as np
+        # the key OBJECTS (path entries and name, their order), not only their joined strings
+        kx, ky = key_structure(self.cirq, x), key_structure(self.cirq, self._y)
+        if kx is not None and kx.pop('in_domain'):
+            self.stats['key_structures_compared'] += 1
+            (ky or {}).pop('in_domain', None)
+            for k in kx:
+                if (ky or {}).get(k) != kx[k]:
+                    return f'{k} differ after the round trip: written {kx[k]!r}, read back {(ky or {}).get(k)!r}'
+        elif kx is not None:
+            self.stats['key_structures_outside_domain'] += 1
         a, b = self._behaviour(x), self._behaviour(self._y)
         for k in a:
             va, vb = a[k], b.get(k)
@@ -1242,6 +1314,42 @@ class Explorer:
         if self._json_ok and not any(c == 'nested' for c, _ in fails):
             self.instances.append(x)      # material for the id-cache stress stream
         return fails
+
+
+def key_structure(cirq, x):
+    """The measurement/control keys a value carries, as structure: per key (path entries, name), listed in the order of the
+    key objects themselves (MeasurementKey.__lt__ compares path tuples, then names).  None when the value carries no keys.
+    in_domain: no component contains the separator (Codec/KeyPath.v key_wf; C11_key_roundtrip_refuted outside)."""
+    groups = {}
+
+    def grab(label, f):
+        try:
+            ks = list(f())
+        except Exception:      # noqa
+            return
+        if ks and all(isinstance(k, cirq.MeasurementKey) for k in ks):
+            groups[label] = ks
+    if isinstance(x, cirq.MeasurementKey):
+        groups['key'] = [x]
+    elif isinstance(x, (cirq.Gate, cirq.Operation, cirq.AbstractCircuit, cirq.Moment)):
+        grab('measurement_key_objs', lambda: cirq.measurement_key_objs(x))
+        grab('control_keys', lambda: cirq.control_keys(x))
+    elif isinstance(x, cirq.Condition):
+        grab('condition_keys', lambda: x.keys)
+    elif isinstance(x, cirq.ClassicalDataStoreReader):
+        grab('store_keys', lambda: x.keys())
+    if not groups:
+        return None
+    out = dict(in_domain=True)
+    for label, ks in groups.items():
+        if any(':' in c for k in ks for c in tuple(k.path) + (k.name,)):
+            out['in_domain'] = False
+        out[label] = sorted((tuple(k.path), k.name) for k in ks)
+        try:
+            out[label + ':order'] = [(tuple(k.path), k.name) for k in sorted(ks)]
+        except Exception as e:      # noqa
+            out[label + ':order'] = 'raises ' + type(e).__name__
+    return out
 
 
 def _deep_eq(a, b):
@@ -1350,6 +1458,7 @@ def stream_classes(ctx, mods, specs, pop):
     table['str_differs_after_roundtrip_not_deciding'] = sorted(ex.str_differs)
     table['unhashable_gates_break_frozen_circuit_json'] = sorted(ex.unhashable_in_frozen)
     table['mutation_denylist'] = {f'{c}.{f}': r for (c, f), r in MUTATION_DENYLIST.items()}
+    table['cross_class_qid_denylist'] = {f'{c}.{f}': r for (c, f), r in CROSS_QID_DENYLIST.items()}
     table['checks'] = dict(ex.stats)
     for k in ('with_mutants', 'stored_only', 'custom', 'gaps'):
         table['n_' + k] = len(table[k])
@@ -1376,6 +1485,184 @@ def _replay_of(cirq, label, x, chk, origin):
     return d
 
 
+# ------------------------------------------------------------------------------------------------ measurement keys of any nesting depth
+KEY_GRID = [((), 'm'), (('a',), 'm'), (('a', 'b'), 'm'), (('x', 'y', 'z'), 'm'), (('0', '1'), 'm'), (('a', 'a-'), 'k0'),
+            (('a-', 'b'), 'm'), (('a', 'z'), 'm'), (('r0', 'r1'), 'p'), (('a', 'b', 'c', 'd'), 'm_1'), (('', 'b'), 'm'), (('a', 'b'), '')]
+KEY_ALPHABET = 'ab01-_ .Z'
+CASES_HEADER_KEYS = ('From Coq Require Import List Bool String.\nFrom VF Require Import Base.Harness Codec.KeyPath.\n'
+                     'Import ListNotations.\nOpen Scope string_scope.\n')
+
+
+def g_mkey(path, name):
+    return 'MKey [%s] %s' % ('; '.join(gstr(c) for c in path), gstr(name))
+
+
+def key_entries(cirq):
+    """Every way a key reaches a serialisable value: name -> builder(path, name). The key is always built as an object
+    (or arises from scoping operations), never from a remembered string."""
+    import sympy
+    q0, q1 = cirq.LineQubit(0), cirq.LineQubit(1)
+    K = lambda p, n: cirq.MeasurementKey(name=n, path=tuple(p))
+
+    def nested_loops(p, n):
+        op = cirq.measure(q0, key=n)
+        body = [cirq.H(q0), op]
+        for comp in reversed(p):
+            op = cirq.CircuitOperation(cirq.FrozenCircuit(body), repetitions=2, repetition_ids=[comp, comp + '-'], use_repetition_ids=True)
+            body = [op]
+        return cirq.unroll_circuit_op(cirq.Circuit(body), deep=True, tags_to_check=None)
+
+    def store(p, n):
+        st = cirq.ClassicalDataDictionaryStore()
+        st.record_measurement(K(p, n), (0, 1), (q0, q1))
+        st.record_channel_measurement(K(p, n + 'c'), 3)
+        return st
+    return collections.OrderedDict([
+        ('MeasurementKey', lambda p, n: K(p, n)),
+        ('MeasurementGate', lambda p, n: cirq.MeasurementGate(2, key=K(p, n), invert_mask=(True,))),
+        ('measure', lambda p, n: cirq.measure(q0, q1, key=K(p, n))),
+        ('PauliMeasurementGate', lambda p, n: cirq.PauliMeasurementGate([cirq.X, cirq.Y], key=K(p, n))),
+        ('measure_single_paulistring', lambda p, n: cirq.measure_single_paulistring(cirq.X(q0) * cirq.Z(q1), key=K(p, n))),
+        ('with_key_path', lambda p, n: cirq.with_key_path(cirq.measure(q0, key=n), tuple(p))),
+        ('with_key_path_prefix', lambda p, n: cirq.with_key_path_prefix(cirq.measure(q0, key=K(p[1:], n)), tuple(p[:1]))),
+        ('with_classical_controls', lambda p, n: cirq.X(q1).with_classical_controls(K(p, n))),
+        ('KeyCondition', lambda p, n: cirq.KeyCondition(K(p, n))),
+        ('KeyCondition[index]', lambda p, n: cirq.KeyCondition(K(p, n), 0)),
+        ('BitMaskKeyCondition', lambda p, n: cirq.BitMaskKeyCondition(K(p, n), 0, 1)),
+        ('SympyCondition', lambda p, n: cirq.SympyCondition(sympy.Symbol(str(K(p, n))) > 0)),
+        ('CircuitOperation(parent_path)', lambda p, n: cirq.CircuitOperation(
+            cirq.FrozenCircuit(cirq.measure(q0, key=n), cirq.X(q1).with_classical_controls(n)), parent_path=tuple(p))),
+        ('nested repetitions unrolled', nested_loops),
+        ('Circuit', lambda p, n: cirq.Circuit(cirq.measure(q0, key=K(p, n)), cirq.X(q1).with_classical_controls(K(p, n)))),
+        ('FrozenCircuit in CircuitOperation', lambda p, n: cirq.CircuitOperation(
+            cirq.FrozenCircuit(cirq.measure(q0, key=K(p, n)), cirq.measure(q1, key=K(p[:-1], n + '2'))))),
+        ('Moment', lambda p, n: cirq.Moment(cirq.measure(q0, key=K(p, n)), cirq.measure(q1, key=K(p, n + 'z')))),
+        ('ClassicalDataDictionaryStore', store),
+    ])
+
+
+def key_value_failures(cirq, ns, x):
+    """The property on one value that carries keys: JSON, pickle and deep copy give back an equal value with equal hash
+    whose keys have the SAME path entries and name and sort the same way, also after one more scope is added."""
+    fails = []
+    structure = lambda v: (lambda d: None if d is None else {k: w for k, w in d.items() if k != 'in_domain'})(key_structure(cirq, v))
+    want = structure(x)
+
+    def scoped(v):
+        if isinstance(v, (cirq.Operation, cirq.AbstractCircuit, cirq.Moment, cirq.MeasurementKey)):
+            try:
+                return structure(cirq.with_key_path_prefix(v, ('vf_scope',)))
+            except Exception as e:      # noqa
+                return 'raises ' + type(e).__name__
+        return None
+
+    def judge(how, y):
+        if not (_safe_eq(y, x) and _safe_eq(x, y)):
+            fails.append((how, f'{how} gives {_short_repr(y)}, not equal to the value written'))
+            return
+        if _hashable(x) and hash(y) != hash(x):
+            fails.append((how + '-hash', f'{how}: equal value, different hash'))
+        got = structure(y)
+        if got != want:
+            d = next((k for k in (want or {}) if (got or {}).get(k) != want[k]), None)
+            fails.append((how + '-keys', f'{how} changes the keys: {d} was {(want or {}).get(d)!r}, comes back as {(got or {}).get(d)!r}'))
+        elif scoped(y) != scoped(x):
+            fails.append((how + '-rescope', f'{how}: after adding one scope the keys are {scoped(y)!r}, for the value written {scoped(x)!r}'))
+    for how, f in (('read_json(to_json(x))', lambda: cirq.read_json(json_text=cirq.to_json(x))),
+                   ('pickle', lambda: pickle.loads(pickle.dumps(x))), ('deepcopy', lambda: copy.deepcopy(x))):
+        try:
+            with warnings.catch_warnings():
+                warnings.simplefilter('ignore')
+                judge(how, f())
+        except Exception as e:      # noqa
+            fails.append((how, f'{how} raises {type(e).__name__}: {e}'[:300]))
+    if isinstance(x, (cirq.MeasurementKey, cirq.Gate, cirq.Operation)):
+        try:
+            with warnings.catch_warnings():
+                warnings.simplefilter('ignore')
+                z = eval(repr(cirq.read_json(json_text=cirq.to_json(x))), dict(ns), {})
+        except Exception:      # noqa  (reprs that do not evaluate are the class stream's matter)
+            z = None
+        if z is not None and _safe_eq(z, x) and structure(z) != want:
+            fails.append(('repr-keys', f'eval(repr(read_json(to_json(x)))) has keys {structure(z)!r}, the value written {want!r}'))
+    return fails
+
+
+def stream_keys(ctx, mods):
+    """Keys with 0..4 path entries through every entry point that puts a key into a document (fixed grid for every seed,
+    then random ones), and the key-string codec against Codec/KeyPath.v."""
+    cirq = mods['cirq']
+    ns = eval_namespace(mods)
+    entries = key_entries(cirq)
+    quick = ctx.tier == 'quick'
+    cases = list(KEY_GRID)
+    for _ in range(30 if quick else 400):
+        depth = ctx.rng.choice([0, 1, 2, 2, 3, 3, 4])
+        word = lambda lo: ''.join(ctx.rng.choice(KEY_ALPHABET) for _ in range(ctx.rng.randint(lo, 3)))
+        cases.append((tuple(word(0) for _ in range(depth)), word(0)))
+    stats = collections.Counter(entry_points=len(entries))
+    # ---- the property on real values
+    for ci, (p, n) in enumerate(cases):
+        for ename, build in entries.items():
+            if ci >= len(KEY_GRID) and ctx.rng.random() < 0.5:
+                continue
+            try:
+                with warnings.catch_warnings():
+                    warnings.simplefilter('ignore')
+                    x = build(tuple(p), n)
+                    ks = key_structure(cirq, x)
+            except Exception:      # noqa   the entry point rejects this key (empty repetition id ...)
+                stats['rejected_by_constructor'] += 1
+                continue
+            deepest = max((len(k[0]) for lab, v in (ks or {}).items() if lab != 'in_domain' and not lab.endswith(':order') for k in v), default=0)
+            stats[f'depth_{min(deepest, 4)}'] += 1
+            ctx.count('key_paths', f'{ename}|{p}|{n}', deepest >= 2, sample=dict(entry=ename, path=list(p), name=n, value=_short_repr(x)))
+            for how, detail in key_value_failures(cirq, ns, x):
+                ctx.violation(f'keypath:{ename}:{how}', f'{ename} with key path={tuple(p)!r} name={n!r}: {detail}; x = {_short_repr(x)}'[:700],
+                              dict(kind='keypath', entry=ename, path=list(p), name=n))
+    # ---- correspondence of the key-string codec with the model
+    q0 = cirq.LineQubit(0)
+    rows, raw = [], []
+    for p, n in cases:
+        k = cirq.MeasurementKey(name=n, path=tuple(p))
+        s_impl = str(k)
+        kp = cirq.MeasurementKey.parse_serialized(s_impl)
+        doc = json.loads(cirq.to_json(cirq.MeasurementGate(1, key=k)))
+        kj = cirq.read_json(json_text=json.dumps(doc)).mkey
+        rows.append((p, n, s_impl, doc['key'], (tuple(kp.path), kp.name), (tuple(kj.path), kj.name)))
+        ctx.count('key_codec', f'{p}|{n}', len(p) >= 2, sample=dict(path=list(p), name=n, written=doc['key'], read_back=[list(kj.path), kj.name]))
+    for _ in range(60 if quick else 600):
+        t = ''.join(ctx.rng.choice(KEY_ALPHABET + ':::') for _ in range(ctx.rng.randint(0, 9)))
+        kp = cirq.MeasurementKey.parse_serialized(t)
+        raw.append((t, (tuple(kp.path), kp.name), str(kp)))
+        ctx.count('key_codec', 'raw|' + t, t.count(':') >= 2)
+    text = CASES_HEADER_KEYS + 'Definition kcases : list (mkey * string * string * mkey * mkey) := [\n' + ';\n'.join(
+        f'({g_mkey(p, n)}, {gstr(s1)}, {gstr(s2)}, {g_mkey(*kp)}, {g_mkey(*kj)})' for p, n, s1, s2, kp, kj in rows) + '].\n'
+    text += ('Eval vm_compute in failing (fun c => match c with (k, s1, s2, kp, kj) => String.eqb (key_str k) s1 && String.eqb (key_str k) s2 '
+             '&& mkey_eqb (key_parse s1) kp && mkey_eqb (key_roundtrip k) kj end) kcases.\n')
+    text += 'Definition rcases : list (string * mkey * string) := [\n' + ';\n'.join(
+        f'({gstr(t)}, {g_mkey(*kp)}, {gstr(back)})' for t, kp, back in raw) + '].\n'
+    text += ('Eval vm_compute in failing (fun c => match c with (s, kp, back) => mkey_eqb (key_parse s) kp && String.eqb (key_str (key_parse s)) back '
+             'end) rcases.\n')
+    vals = coq.parse_evals(coq.coq_eval(f'c11_keys_{ctx.seed}', text))
+    assert len(vals) == 2, vals
+    for idx in coq.parse_nat_list(vals[0]):
+        p, n, s1, s2, kp, kj = rows[idx]
+        ctx.mark_broken('correspondence:key_codec', f'MeasurementKey(path={p!r}, name={n!r}): str {s1!r}, written {s2!r}, parse_serialized -> {kp!r}, '
+                        f'read back from a MeasurementGate document -> {kj!r}; the model (join / split at every separator) disagrees')
+    for idx in coq.parse_nat_list(vals[1]):
+        t, kp, back = raw[idx]
+        ctx.mark_broken('correspondence:key_codec', f'MeasurementKey.parse_serialized({t!r}) = {kp!r} (str: {back!r}) differs from the model')
+    # ---- the refuted statement replayed: a path entry that contains the separator is split on reading, the values stay ==
+    w = cirq.MeasurementKey(path=('a:b',), name='m')
+    back = cirq.read_json(json_text=cirq.to_json(cirq.MeasurementGate(1, key=w))).mkey
+    stats['refuted_witness_splits_on_implementation'] = bool(tuple(back.path) != tuple(w.path) and back == w)
+    if not stats['refuted_witness_splits_on_implementation']:
+        ctx.stale_supporting.append('C11_key_roundtrip_refuted: the witness MeasurementKey(path=("a:b",), name="m") now keeps its path (or is no longer ==)')
+    stats['cases'] = len(cases)
+    ctx.cov['key_paths'] = dict(stats)
+
+
 # ------------------------------------------------------------------------------------------------ Qid ordering
 def qid_pool(mods, pop):
     cirq, cp, cg = mods['cirq'], mods['cirq_pasqal'], mods['cirq_google']
@@ -1389,6 +1676,11 @@ def qid_pool(mods, pop):
     pool += [cp.ThreeDQubit(1, 2, 3), cp.ThreeDQubit(0, 0, 0), cp.TwoDQubit(1, 2), cp.TwoDQubit(0, 3)]
     pool += [cp.ThreeDQubit(1, 2, 3).with_dimension(3), cirq.testing.NoIdentifierQubit(), cirq.testing.NoIdentifierQubit().with_dimension(4)]
     pool += [cg.Coupler(cirq.GridQubit(0, 0), cirq.GridQubit(0, 1)), cg.Coupler(cirq.GridQubit(0, 1), cirq.GridQubit(1, 1))]
+    # qids made of qids, over every kind of member (integer-hashed, string-hashed, other dimensions, mixed classes)
+    pool += [cg.Coupler(cirq.NamedQubit('a'), cirq.NamedQubit('b')), cg.Coupler(cirq.NamedQubit('c'), cirq.NamedQubit('b')),
+             cg.Coupler(cirq.NamedQid('u', dimension=3), cirq.NamedQid('v', dimension=3)), cg.Coupler(cirq.LineQubit(0), cirq.LineQubit(1)),
+             cg.Coupler(cirq.LineQid(0, dimension=3), cirq.LineQid(2, dimension=3)), cg.Coupler(cirq.NamedQubit('a'), cirq.GridQubit(0, 0)),
+             cirq.NamedQubit('a').with_dimension(3), cirq.GridQubit(0, 1).with_dimension(4)]
     for t, objs in pop.by_type.items():
         if isinstance(t, type) and issubclass(t, cirq.Qid):
             for o in objs:
@@ -1432,6 +1724,29 @@ def stream_qids(ctx, mods, pop):
     def viol(sig, what, qs):
         ctx.violation('qid-order:' + sig, what, dict(kind='qids', reprs=[repr(q) for q in qs],
                                                      pickle_b64=base64.b64encode(pickle.dumps(list(qs))).decode()))
+    # comparisons that raise: the order is not total there.  Reported, and the offending qids leave the pool so that the rest of
+    # the stream (sorting, transitivity, the model) can run on comparable ones
+    def raising(pl):
+        out = collections.defaultdict(list)
+        for a in pl:
+            for b in pl:
+                try:
+                    (a < b, a > b, a <= b, a >= b, a == b, a != b)
+                except Exception as e:      # noqa
+                    out[id(a)].append((b, e))
+        return out
+    full_pool = pool
+    while True:
+        r = raising(pool)
+        if not r:
+            break
+        worst = max(pool, key=lambda q: len(r.get(id(q), [])))
+        b, e = r[id(worst)][0]
+        viol(f'raises:{type(worst).__name__}/{type(b).__name__}',
+             f'comparing {worst!r} with {b!r} raises {type(e).__name__}: {e} (the order must be total; sorted() of the two fails)', (worst, b))
+        stats['qids_removed_because_comparison_raises'] += 1
+        pool = [q for q in pool if q is not worst]
+    stats['pool'] = len(pool)
     for a in pool:
         for b in pool:
             lt, gt, eq = bool(a < b), bool(a > b), bool(a == b)
@@ -1687,11 +2002,80 @@ for i, (label, data, text) in enumerate(rows):
         p = pickle.loads(data)
         f = cirq.read_json(json_text=text)
         if not (p == f) or hash(p) != hash(f) or {f: 1}.get(p) != 1:
-            bad.append([i, label, 'unpickled value and freshly read value: == %s, hashes %s' % (p == f, hash(p) == hash(f))])
+            bad.append([i, label, 'unpickled value and freshly read value: == %s, hashes equal %s, dict look-up %s; value %s'
+                        % (p == f, hash(p) == hash(f), {f: 1}.get(p) == 1, repr(f)[:200])])
     except Exception as e:
         bad.append([i, label, type(e).__name__ + ': ' + str(e)[:200]])
 print('XPROC ' + json.dumps(bad))
 """
+
+
+def xproc_extras(ctx, mods, pop, ex):
+    """More pickles for the second process, the same for every seed: (a) every qid of the pool — alone and inside an operation,
+    a tagged operation, a measurement, a Pauli string, a moment, a frozen circuit and a circuit operation — and (b) the
+    operations / moments / circuits met by the class stream with their qubits replaced by string-hashed ones, so that every
+    level that memoises a hash (qid, qid of qids, moment, frozen circuit, circuit operation) sits over members whose hashes
+    differ between the two processes.  History: every value is hashed before it is pickled."""
+    cirq = mods['cirq']
+    stats = collections.Counter()
+
+    def add(label, x):
+        try:
+            with time_limit(10), warnings.catch_warnings():
+                warnings.simplefilter('ignore')
+                text = cirq.to_json(x)
+                if not _safe_eq(cirq.read_json(json_text=text), x):
+                    stats['not_serialisable_or_unequal_in_process'] += 1
+                    return
+                hash(x)
+                {x: 1}
+                data = pickle.dumps(x)
+        except Exception:      # noqa   not serialisable / not hashable / not picklable: the class stream reports those
+            stats['not_serialisable_or_unequal_in_process'] += 1
+            return
+        ex.xproc.append((label, data, text))
+        stats['values'] += 1
+
+    def containers(q):
+        d = q.dimension
+        op = cirq.IdentityGate(qid_shape=(d,)).on(q)
+        yield 'qid', q
+        yield 'operation', op
+        yield 'tagged operation', op.with_tags('vf_tag')
+        yield 'measurement', cirq.measure(q, key='vf_k')
+        if d == 2:
+            yield 'pauli string', cirq.PauliString({q: cirq.X})
+            yield 'controlled operation', cirq.Z(cirq.LineQubit(99)).controlled_by(q)
+        yield 'moment', cirq.Moment(op)
+        fc = cirq.FrozenCircuit(op, cirq.measure(q, key='vf_k'))
+        yield 'frozen circuit', fc
+        yield 'circuit operation', cirq.CircuitOperation(fc, repetitions=2)
+    for q in qid_pool(mods, pop):
+        try:
+            vals = list(containers(q))
+        except Exception:      # noqa
+            stats['qid_not_usable_in_operations'] += 1
+            vals = [('qid', q)]
+        for cname, v in vals:
+            add(f'{type(q).__name__}:qid-grid:{cname}:{_short_repr(q)[:90]}', v)
+    per_type = collections.Counter()
+    cap = 3 if ctx.tier == 'quick' else 12
+    for x in list(ex.instances):
+        if not isinstance(x, (cirq.Operation, cirq.Moment, cirq.AbstractCircuit)) or per_type[type(x)] >= cap:
+            continue
+        try:
+            qs = sorted(x.qubits if not isinstance(x, cirq.AbstractCircuit) else x.all_qubits())
+            if not qs:
+                continue
+            m = {q: (cirq.NamedQubit(f'vf_r{i}') if q.dimension == 2 else cirq.NamedQid(f'vf_r{i}', dimension=q.dimension)) for i, q in enumerate(qs)}
+            y = x.transform_qubits(m)
+        except Exception:      # noqa   (classes bound to one qubit type)
+            stats['rename_not_applicable'] += 1
+            continue
+        per_type[type(x)] += 1
+        add(f'{type(x).__name__}:renamed-qubits:{_short_repr(y)[:90]}', y)
+    stats['renamed_types'] = len(per_type)
+    ctx.cov['cross_process_extras'] = dict(stats)
 
 
 def stream_xproc(ctx, mods, ex):
